@@ -19,9 +19,19 @@ Oracle : history invariants over the global event order of one run (vp/harness/o
       registered;
   S4  a line starts only after its enclosing Block / Watch / Alarm activation / Call macro has started, a macro body
       line only while a call of that macro is in progress;
-  S5  blank/comment lines after the last instruction of the method are never reported started or executed by the
-      method state at any tick end; follow-up (one live edit at the end of the run): a `Mark: zz` appended below them
-      in the scope the interpreter is parked in runs exactly once.
+  S5  blank/comment lines after the last instruction of the method are never reported executed (= passed) by the
+      method state at any tick end (being reported `started` for the one tick of their first visit is counted, not
+      judged); follow-up on interrupt-free methods (one live edit at the end of the run): a `Mark: zz` appended below
+      them, in the scope of the last instruction, runs exactly once -- given the interpreter was parked at the first
+      trailing line and that scope was still open.  (The current merge re-runs the method from the top, which is C01's
+      subject; the follow-up therefore allows a complete re-run before it expects `zz`.)
+Per case only the FIRST violation in event order is reported (later ones are cascades of an undefined interpreter
+state).  Lines in blocks that have ended are C05's subject and are skipped here.  Violations on lines that are, or lie
+inside, a Watch/Alarm declared in a body that runs repeatedly (Alarm / Macro body) share one signature
+(`interrupt-in-repeated-body:once-and-in-order`): the re-arming Alarm resets the run-time state of the nested interrupt
+while its handler of the previous invocation is still alive (re-registration, body executed by two handlers, skipped
+Watch).  Effect-channel duplicates of a command with ONE instance id are reported as `engine-restarted-command-instance`
+(the interpreter issued the command once; the command manager re-created a cancelled command).
 """
 from __future__ import annotations
 
@@ -52,12 +62,12 @@ ASSUMPTIONS = [
     "(class macro-concurrent-call): the statement does not say how overlapping invocations share the body",
 ]
 TIERS = {"quick": {"examples": 3200, "ticks": 110, "budget_s": 150, "depth": 3, "max_top": 8},
-         "thorough": {"examples": 80000, "ticks": 220, "budget_s": 1500, "depth": 4, "max_top": 12}}
+         "thorough": {"examples": 80000, "ticks": 220, "budget_s": 840, "depth": 4, "max_top": 12}}
 
 
 def gen_cfg(depth: int, max_top: int) -> G.GenCfg:
     return G.GenCfg(kinds={"mark": 6, "quick": 2, "slow": 2, "set": 1, "ova": 1, "ovb": 1, "wait": 2, "notify": 1, "info": 1,
-                           "block": 3, "watch": 2, "alarm": 1, "macro": 2, "callmacro": 2, "blank": 1, "comment": 1,
+                           "block": 4, "watch": 3, "alarm": 2, "macro": 3, "callmacro": 4, "blank": 1, "comment": 1,
                            "endblock": 1},
                     max_depth=depth, max_top=max_top, max_children=4, thresholds=True, threshold_max=1.5, wait_max=1.5,
                     base_first="s", trailing_ws=True)
@@ -123,6 +133,8 @@ def run_shard(col, cfg):
     def body(case):
         vs, info, tr = run_case(case)
         nontrivial, classes = _classes(case, info, tr)
+        if case.get("excluded_nested"):
+            classes = classes + ["excluded_known:interrupt-in-repeated-body"]
         col.record(case, nontrivial, classes=classes, violations=vs,
                    sample={"method": G.text_of(tr.prog.lines), "traj": case["traj"], "init": case["init"], "ticks": case["ticks"]})
     hyp_run(O.cases(gcfg, int(cfg["ticks"])), body, max(1, int(cfg["examples"]) // col.nshards), shard_seed(col.seed, col.shard), col)
